@@ -500,7 +500,7 @@ fn build_with<'r, V: Visitor<'r>>(b: &'r B, ctx: &Ctx<'r>, v: V) -> V::Out {
 // ---------------------------------------------------------------------------------------------
 // the `build` request
 
-fn make_buf(len: usize, fill: Fill) -> Vec<u8> {
+pub fn make_buf(len: usize, fill: Fill) -> Vec<u8> {
     match fill {
         Fill::Const(b) => vec![b; len],
         Fill::Pat => (0..len).map(|i| (i * 31 + 7) as u8).collect(),
